@@ -29,7 +29,7 @@ func init() {
 	core.Register(&core.Check{
 		ID:    "C19",
 		Level: "model_checking",
-		Rule: "all histories of <=1 (thorough <=2) earlier programs followed by a program under test over an alphabet of 56 programs (incl. pairs that raise the same run-time error from different source positions, and programs that invite!/import the embedded and Go standard modules after defining variables) (define a variable, read it, shadow a built-in name, use a built-in, raise `_` on different lines, touch Either's abstract props, raise at depth 2, syntax error, intern new symbols via evalEnv, print, read stdin, iterate, user error, error inside native code, inspect built-in prototypes), " +
+		Rule: "all histories of <=1 (thorough <=2) earlier programs followed by a program under test over an alphabet of 62 programs (incl. source files loaded by relative path - a module that raises, one that does not parse, a good one - and regular expressions whose texts share one symbol key) (incl. pairs that raise the same run-time error from different source positions, and programs that invite!/import the embedded and Go standard modules after defining variables) (define a variable, read it, shadow a built-in name, use a built-in, raise `_` on different lines, touch Either's abstract props, raise at depth 2, syntax error, intern new symbols via evalEnv, print, read stdin, iterate, user error, error inside native code, inspect built-in prototypes), " +
 			"each history in a new process, under 2 reuse drivers (playground: one const env, one enclosed scope per program - the call sequence of web/wasm/executor.go; `pangaea test`: runscript.RunTest over a generated directory); " +
 			"oracle: (stdout, value, error message, stack trace) of the program under test equals its observation alone in a new process; states = histories, transitions = program evaluations; " +
 			"non-trivial = every history of length >=1; distinct = distinct (driver, history, program)",
@@ -115,6 +115,14 @@ var alphabet = []prog{
 	{Name: "print-multiline-func-v1", Src: "f := {|x|\n  x + 1\n}\ne := {|x|\n  x + 1\n}\n[f.S, f == e, f(1)]"},
 	{Name: "print-multiline-func-v2", Src: "g := {|y|\n  y * 2\n}\ne := {|y|\n  y * 2\n}\n[g.S, g == e, g(1)]"},
 	{Name: "print-multiline-iter-v3", Src: "h := <{|n|\n  yield n\n}>\n[h.S, h.new(3).next]"},
+	// source files loaded by relative path: a module that raises, one that does not parse, a good one
+	{Name: "import-broken-file", Src: "import(\"@MODS@/broken\")", Fails: true},
+	{Name: "import-broken-file-caught", Src: "[nil.try.{|u| import(\"@MODS@/broken\")}.err.msg, nil.try.{|u| import(\"@MODS@/badsyntax\")}.err?, import(\"@MODS@/good\").answer]"},
+	{Name: "invite-good-file", Src: "invite!(\"@MODS@/good\")\n[answer, twice(4)]"},
+	{Name: "import-file-in-function", Src: "answer := 1\nload := {|answer| import(\"@MODS@/good\")}\n[load(5).answer, load(6).twice(2), answer]"},
+	// two patterns / names that differ only in text, with the same 64-bit symbol key
+	{Name: "regex-pattern-v1", Src: "[\"id=swddgEpwqyega;\".match(\"swddgEpwqyega\"), \"xswddgEpwqyegay\".sub(\"swddgEpwqyega\", \"-\"), \"1swddgEpwqyega2\" / \"swddgEpwqyega\"]"},
+	{Name: "regex-pattern-v2", Src: "[\"id=lwvgwfgDAyorc;\".match(\"lwvgwfgDAyorc\"), \"xlwvgwfgDAyorcy\".sub(\"lwvgwfgDAyorc\", \"-\"), \"1lwvgwfgDAyorc2\" / \"lwvgwfgDAyorc\"]"},
 	{Name: "bear-patch-builtins", Src: "c := Int.bear({extra: 1})\nd := {a: 1}.patch(b: 2)\n[c['extra], Int['extra], d, Obj['b]]"},
 }
 
@@ -136,6 +144,16 @@ type request struct {
 
 // ---------------------------------------------------------------- helper process
 
+// writeMods: source files the programs may load by relative path, in ./mods. The playground has no source path
+// (relative paths start at the working directory: @MODS@ = ./mods); `pangaea test` resolves them from the test
+// file in ./t (@MODS@ = ../mods; every file below ./t would be run as a test).
+func writeMods(d string) {
+	os.MkdirAll(d, 0o755)
+	os.WriteFile(filepath.Join(d, "broken.pangaea"), []byte("limit := 10\nraise ValueErr.new(\"broken module: limit is too small\") if limit < 100\nanswer := 42\n"), 0o644)
+	os.WriteFile(filepath.Join(d, "good.pangaea"), []byte("answer := 42\ntwice := {|x| x * 2}\n"), 0o644)
+	os.WriteFile(filepath.Join(d, "badsyntax.pangaea"), []byte("answer := (42\n"), 0o644)
+}
+
 func helper(args []string) int {
 	var req request
 	b, err := io.ReadAll(os.Stdin)
@@ -143,6 +161,7 @@ func helper(args []string) int {
 		fmt.Fprintln(os.Stderr, "c19run: bad request")
 		return 2
 	}
+	writeMods("mods")
 	var res []obs
 	switch req.Driver {
 	case "playground":
@@ -151,6 +170,14 @@ func helper(args []string) int {
 		res = runTest(req.Progs)
 	default:
 		return 2
+	}
+	// every process has its own scratch directory: its name is not part of the observation
+	if cwd, err := os.Getwd(); err == nil {
+		for i := range res {
+			for _, f := range []*string{&res[i].Stdout, &res[i].Value, &res[i].Err, &res[i].Trace, &res[i].Stderr} {
+				*f = strings.ReplaceAll(*f, cwd, "$CWD")
+			}
+		}
 	}
 	out, _ := json.Marshal(res)
 	os.Stdout.Write(out)
@@ -209,7 +236,7 @@ func playground(progs []prog) []obs {
 					o.Err = fmt.Sprintf("HOST PANIC: %v", r)
 				}
 			}()
-			node, err := parser.Parse(parser.NewReader(strings.NewReader(p.Src), "playground"))
+			node, err := parser.Parse(parser.NewReader(strings.NewReader(strings.ReplaceAll(p.Src, "@MODS@", "./mods")), "playground"))
 			if err != nil {
 				o.Err = err.Error()
 				return
@@ -241,7 +268,7 @@ func runTest(progs []prog) []obs {
 			name = "z_test.pangaea"
 			stdin = p.Stdin
 		}
-		src := p.Src
+		src := strings.ReplaceAll(p.Src, "@MODS@", "../mods")
 		if !p.Fails {
 			// make the value observable: `pangaea test` prints nothing about values
 			lines := strings.Split(src, "\n")
@@ -307,7 +334,7 @@ func runProcess(c *core.Ctx, driver string, progs []prog) (obs, bool) {
 	}
 	o := res[len(res)-1]
 	if driver == "runtest" {
-		o.Stderr = se.String()
+		o.Stderr = strings.ReplaceAll(se.String(), cwd, "$CWD")
 		// keep only what concerns the file under test
 		if i := strings.LastIndex(o.Stdout, "run:  t/z_test.pangaea"); i >= 0 {
 			o.Stdout = o.Stdout[i:]
